@@ -101,6 +101,16 @@ def explore_scenario(h, desc, tier, profile=False):
                 if "/pgmpy/" in fn_ and "/tests/" not in fn_:
                     funcs.add(fn_.split("/pgmpy/", 1)[1][:-3].replace("/", ".") + ":" + co.co_qualname)
         sys.setprofile(prof)
+    import signal
+
+    def _alarm(signum, frame):
+        raise core.PathLimit("scenario time budget exhausted inside a path")
+    old_handler = None
+    try:
+        old_handler = signal.signal(signal.SIGALRM, _alarm)
+        signal.setitimer(signal.ITIMER_REAL, budget + 20, 15)
+    except (ValueError, AttributeError):
+        old_handler = None
     try:
         results, tot, unknowns, truncated = core.explore(fn, max_paths=desc.get("max_paths", 3000),
                                                          branch_timeout_ms=5000 if tier == "quick" else 30000,
@@ -112,6 +122,12 @@ def explore_scenario(h, desc, tier, profile=False):
         return res
     finally:
         sys.setprofile(None)
+        try:
+            signal.setitimer(signal.ITIMER_REAL, 0)
+            if old_handler is not None:
+                signal.signal(signal.SIGALRM, old_handler)
+        except (ValueError, AttributeError):
+            pass
     res["functions"] = sorted(funcs)
     res["paths"] = len(results)
     res["decisions"] = tot.get("decides", 0)
